@@ -32,6 +32,7 @@ typedef struct op {
 	int      resubmit;  // times to resubmit from callback
 	int      submitted; // number of submissions
 	nng_msg *msg;
+	int      slow_ms;   // the callback takes this long before it re-submits
 } op;
 
 static void
@@ -55,6 +56,8 @@ op_cb(void *arg)
 		vs_fail("C02:early-timeout", "ETIMEDOUT at +%lld ms, timeout %d ms",
 		    (long long) (o->t_cb - o->t_start), o->timeout);
 	if (o->resubmit > 0 && o->result == 0) {
+		if (o->slow_ms)
+			nng_msleep(o->slow_ms);
 		o->resubmit--;
 		o->submitted++;
 		o->t_start = vs_now();
@@ -131,10 +134,79 @@ s2_stopper(void *a)
 	o->stopped = 1;
 	return NULL;
 }
+// nng_aio_free without a prior stop: the same promise, and the aio's memory is gone afterwards
+static void *
+s2_freer(void *a)
+{
+	op *o = a;
+	nng_aio_free(o->aio);
+	if (o->in_cb)
+		vs_fail("C02:stop-returned-during-callback",
+		    "nng_aio_free returned while the callback was running");
+	o->stopped = 1;
+	return NULL;
+}
+static int s2_delay;
+static void *
+s2_late_freer(void *a)
+{
+	vs_sleep(s2_delay);
+	return s2_freer(a);
+}
+static void *
+s2_late_stopper(void *a)
+{
+	vs_sleep(s2_delay);
+	return s2_stopper(a);
+}
+// S2g: the callback of a completed operation is busy (3 ms) and then re-arms the same aio, while
+// nng_aio_free / nng_aio_stop is called at every instant around that: the re-armed operation must
+// be refused (one more callback with NNG_ESTOPPED) - never accepted and left behind on an aio that
+// is then released
+static void
+run_s2g(void *arg)
+{
+	int usefree = (int) (intptr_t) arg;
+	vh_init(0);
+	static op o;
+	memset(&o, 0, sizeof(o));
+	VH_OK(nng_aio_alloc(&o.aio, op_cb, &o));
+	vs_settle();
+	s2_delay    = 2 + vs_choose(VK_ENV, 10); // 2..11 ms: before, during and after the callback
+	o.timeout   = 5;
+	o.t_start   = vs_now();
+	o.submitted = 1;
+	o.resubmit  = 60; // (a timer that re-arms itself for ever, as far as this run is concerned)
+	o.slow_ms   = 3;
+	pthread_t th;
+	nng_sleep_aio(5, o.aio);
+	pthread_create(&th, NULL, usefree ? s2_late_freer : s2_late_stopper, &o);
+	pthread_join(th, NULL);
+	int ncb_at_stop = o.ncb;
+	// the call was made s2_delay ms after the start; each round of the timer takes 8 ms: by the
+	// time it returns at most the round in progress and one refused re-arm may have completed
+	if (o.ncb > s2_delay / 8 + 3)
+		vs_fail("C02:stop-does-not-stop",
+		    "%s was called %d ms after the start and returned only after %d callbacks: "
+		    "operations submitted by the callback while it was in progress were accepted",
+		    usefree ? "nng_aio_free" : "nng_aio_stop", s2_delay, o.ncb);
+	vs_settle();
+	vs_sleep(50);
+	if (o.ncb != ncb_at_stop)
+		vs_fail("C02:callback-after-stop", "%d callbacks when %s returned, %d later",
+		    ncb_at_stop, usefree ? "nng_aio_free" : "nng_aio_stop", o.ncb);
+	if (o.ncb != o.submitted)
+		vs_fail("C02:callback-count", "%d submissions, %d callbacks", o.submitted, o.ncb);
+	vs_outcome("delay=%d ncb=%d last=%d", s2_delay, o.ncb, o.result);
+	if (!usefree)
+		nng_aio_free(o.aio);
+	vh_fini();
+}
 static void
 run_s2(void *arg)
 {
-	int resub = (int) (intptr_t) arg;
+	int resub   = (int) (intptr_t) arg & 0xff;
+	int usefree = ((int) (intptr_t) arg >> 8) & 1;
 	vh_init(0);
 	static op o;
 	memset(&o, 0, sizeof(o));
@@ -147,7 +219,7 @@ run_s2(void *arg)
 	o.resubmit  = resub;
 	vs_window(1);
 	nng_sleep_aio(5, o.aio);
-	pthread_create(&th, NULL, s2_stopper, &o);
+	pthread_create(&th, NULL, usefree ? s2_freer : s2_stopper, &o);
 	pthread_join(th, NULL);
 	vs_window(0);
 	int ncb_at_stop = o.ncb;
@@ -162,7 +234,8 @@ run_s2(void *arg)
 	static const int ok[] = { 0, NNG_ECANCELED, NNG_ESTOPPED };
 	allowed(&o, "sleep", ok, 3);
 	vs_outcome("ncb=%d last=%d", o.ncb, o.result);
-	nng_aio_free(o.aio);
+	if (!usefree)
+		nng_aio_free(o.aio);
 	vh_fini();
 }
 
@@ -710,7 +783,9 @@ run_s8(void *arg)
 // a result from the allowed set, within bounded virtual time.
 enum { S16_SOCKFD, S16_IPC, S16_TCP, S16_WS };
 static const char *S16N[] = { "socketfd", "ipc", "tcp", "ws" };
-static op          S16[4];
+#define S16MAX 104
+static op          S16[S16MAX];
+static int         s16n;
 static void *
 s16_canceller(void *a)
 {
@@ -793,11 +868,16 @@ run_s16(void *arg)
 	if (nng_aio_result(acc) != 0)
 		vs_fail("harness:setup", "stream accept: %d", nng_aio_result(acc));
 	nng_stream *st = nng_aio_get_output(acc, 0);
-	size_t       sz   = (tran == S16_TCP || tran == S16_WS) ? (3u << 20) : (512u << 10);
+	size_t       sz   = tran == S16_TCP ? (3u << 20) : (512u << 10);
+	// (a websocket stream sends one frame of at most 64 KB per operation: 100 of them are
+	// needed before one is stuck behind the peer's closed window)
+	s16n = tran == S16_WS ? 101 : 4;
+	if (tran == S16_WS)
+		sz = 65536;
 	uint8_t     *sbuf = malloc(sz);
 	static char  rbuf[64];
 	memset(sbuf, 0x6b, sz);
-	for (int i = 0; i < 4; i++) {
+	for (int i = 0; i < s16n; i++) {
 		VH_OK(nng_aio_alloc(&S16[i].aio, op_cb, &S16[i]));
 		nng_iov iov = { .iov_buf = i ? (void *) sbuf : (void *) rbuf,
 			.iov_len         = i ? sz : sizeof(rbuf) };
@@ -813,7 +893,7 @@ run_s16(void *arg)
 	}
 	vs_settle();
 	int pending0 = 0;
-	for (int i = 0; i < 4; i++)
+	for (int i = 0; i < s16n; i++)
 		pending0 += S16[i].ncb == 0;
 	int how    = vs_choose(VK_ENV, 4); // close / peer closes / cancel #3 then peer drains / stop
 	int racer  = vs_choose(VK_ENV, 3); // nobody / cancel of the receive / cancel of send #2
@@ -821,7 +901,7 @@ run_s16(void *arg)
 	int64_t   t0 = vs_now();
 	vs_window(1);
 	if (racer)
-		pthread_create(&tc, NULL, s16_canceller, &S16[racer == 1 ? 0 : 2]);
+		pthread_create(&tc, NULL, s16_canceller, &S16[racer == 1 ? 0 : s16n - 2]);
 	switch (how) {
 	case 0:
 		nng_stream_close(st);
@@ -831,7 +911,7 @@ run_s16(void *arg)
 		fd = -1;
 		break;
 	case 2:
-		nng_aio_cancel(S16[3].aio);
+		nng_aio_cancel(S16[s16n - 1].aio);
 		break;
 	default:
 		nng_stream_stop(st);
@@ -855,17 +935,22 @@ run_s16(void *arg)
 				idle = 0;
 		}
 	}
-	vs_sleep(100);
+	// (a websocket stream closes gracefully: what is queued is failed when the closing
+	// handshake has run its 100 ms)
+	vs_sleep(tran == S16_WS ? 250 : 100);
 	int done = 0;
-	for (int i = 0; i < 4; i++)
+	for (int i = 0; i < s16n; i++)
 		done += S16[i].ncb == 1;
-	if (how != 2 && done != 4) {
+	// (after the application's own close / stop.  When the peer goes away the operation in
+	// flight fails at once, but nothing in the statement says when the ones queued behind it
+	// do - they have their timeouts, which are checked below.)
+	if ((how == 0 || how == 3) && done != s16n) {
 		int first = -1;
-		for (int i = 0; i < 4; i++)
+		for (int i = 0; i < s16n; i++)
 			if (S16[i].ncb == 0 && first < 0)
 				first = i;
 		vs_fail("C02:never-completes:stream-teardown",
-		    "%s stream, %s: 100 ms later %d of 4 operations have completed; %s #%d "
+		    "%s stream, %s: 100 ms (ws: 250) later %d of the operations have completed; %s #%d "
 		    "is still pending (%d were pending before)",
 		    S16N[tran],
 		    how == 0       ? "nng_stream_close"
@@ -876,8 +961,17 @@ run_s16(void *arg)
 	vs_sleep(400); // every timeout has passed by now
 	static const int ok[] = { 0, NNG_ECANCELED, NNG_ETIMEDOUT, NNG_ECONNSHUT,
 		NNG_ECLOSED, NNG_ECONNRESET, NNG_ESTOPPED };
+	// the stream object goes away too (a close timer, and the sweep of what is still queued
+	// when the stream is released, complete operations as well)
+	nng_stream_close(st);
+	nng_stream_stop(st);
+	nng_stream_free(st);
+	st = NULL;
+	vs_settle();
+	vs_sleep(150);
+	vs_settle();
 	char oc[40] = "";
-	for (int i = 0; i < 4; i++) {
+	for (int i = 0; i < s16n; i++) {
 		if (S16[i].ncb != 1)
 			vs_fail("C02:callback-count",
 			    "%s stream: %s #%d had %d callbacks %lld ms after the event",
@@ -886,15 +980,13 @@ run_s16(void *arg)
 		allowed(&S16[i], i ? "stream send" : "stream recv", ok, 7);
 		if (S16[i].result == 0 && i && nng_aio_count(S16[i].aio) == 0)
 			vs_fail("C02:result-without-effect", "stream send 0 with 0 bytes");
-		snprintf(oc + strlen(oc), sizeof(oc) - strlen(oc), "%d,", S16[i].result);
+		if (i < 4 || i >= s16n - 2)
+			snprintf(oc + strlen(oc), sizeof(oc) - strlen(oc), "%d,", S16[i].result);
 	}
 	vs_outcome("%s how=%d racer=%d %s", S16N[tran], how, racer, oc);
-	for (int i = 0; i < 4; i++)
+	for (int i = 0; i < s16n; i++)
 		nng_aio_free(S16[i].aio);
 	nng_aio_free(acc);
-	nng_stream_close(st);
-	nng_stream_stop(st);
-	nng_stream_free(st);
 	nng_stream_listener_close(sl);
 	nng_stream_listener_free(sl);
 	if (fd >= 0)
@@ -1415,6 +1507,10 @@ main(int argc, char **argv)
 	explore("S1-sleep-cancel", run_s1, NULL, p, t, sw, tot);
 	explore("S2-sleep-stop", run_s2, (void *) 0, p, t, sw, tot);
 	explore("S2r-resubmit-stop", run_s2, (void *) 2, p, t, sw, tot);
+	explore("S2f-sleep-free", run_s2, (void *) 0x100, p, t, sw, tot);
+	explore("S2fr-resubmit-free", run_s2, (void *) 0x102, p, t, sw, tot);
+	explore("S2g-busy-callback-rearms-stop", run_s2g, (void *) 0, 0, 0, 0, 0);
+	explore("S2g-busy-callback-rearms-free", run_s2g, (void *) 1, 0, 0, 0, 0);
 	static s3arg s3[] = { { 0, 0, 0 }, { 0, 1, 0 }, { 9, 1, 0 }, { 10, 0, 0 },
 		{ 11, 0, 0 } };
 	static const char *s3n[] = { "S3-recv-msg", "S3-recv-msg-cancel",
@@ -1471,10 +1567,16 @@ main(int argc, char **argv)
 	explore("S8-stream-close-cancel", run_s8, (void *) 1, p, t, sw, tot);
 	explore("S8-stream-idle-cancel", run_s8, (void *) 2, p, t, sw, tot);
 	explore("S17-http-transact-cancel", run_s17, NULL, 1, 1, 1, T ? 2 : 1);
-	for (int tr = 0; tr < (T ? 4 : 3); tr++) { // (ws: the 64 KB frames never stall; thorough only)
+	for (int tr = 0; tr < 4; tr++) {
 		char nm[64];
 		snprintf(nm, sizeof(nm), "S16-stream-queued-writes-%s", S16N[tr]);
-		explore(strdup(nm), run_s16, (void *) (intptr_t) tr, 1, 0, 1, T ? 2 : 1);
+		// (ws: 101 operations per execution; quick runs the 12 combinations under the
+		// default schedule, thorough adds one deviation)
+		if (tr == S16_WS)
+			explore(strdup(nm), run_s16, (void *) (intptr_t) tr, T ? 1 : 0, 0, T ? 1 : 0,
+			    T ? 1 : 0);
+		else
+			explore(strdup(nm), run_s16, (void *) (intptr_t) tr, 1, 0, 1, T ? 2 : 1);
 	}
 	return vx_finish();
 }
